@@ -342,7 +342,10 @@ async fn backoff_body(c: &BackoffCase) -> L2 {
   let mut verdict = L2::Ok;
   for (i, g) in gaps.iter().enumerate() {
     if (*g as f64) < 0.8 * c.ivl_ms as f64 {
-      verdict = v("reconnect_too_soon", format!("gap {} ms before attempt {} with RECONNECT_IVL {} (gaps {:?})", g, i + 2, c.ivl_ms, gaps));
+      verdict = match v("reconnect_too_soon", format!("gap {} ms before attempt {} with RECONNECT_IVL {} (gaps {:?})", g, i + 2, c.ivl_ms, gaps)) {
+        L2::Violation(x) => L2::Violation(x.with("sub", "reconnect_observed")),
+        other => other,
+      };
       break;
     }
     if c.max_ms > 0 && *g > c.max_ms as u128 + slack {
@@ -434,7 +437,7 @@ async fn refused_body(c: &RefusedCase) -> L2 {
   // delays start at RECONNECT_IVL and may stay there (growth is 'at most' geometric): no more waits
   // can begin inside the window than window / ivl, plus the first and one for rounding
   let max_waits = (c.window_ms as usize / c.ivl_ms as usize) + 2;
-  let v = |check: &str, d: String| L2::Violation(Violation::new(check, d).with("layer", "stack").with("transport", "tcp"));
+  let v = |check: &str, d: String| L2::Violation(Violation::new(check, d).with("layer", "stack").with("transport", "tcp").with("sub", "refused_backoff_under_actor_churn"));
   let mut verdict = L2::Ok;
   if retries.len() > max_waits {
     verdict = v("reconnect_too_soon", format!("{} retry waits were announced within {} ms against a refusing port with RECONNECT_IVL {} (at most {} waits of at least RECONNECT_IVL fit; {} unrelated sockets were opened and closed meanwhile); (time, delay) = {:?}", retries.len(), c.window_ms, c.ivl_ms, max_waits, churned, &retries[..retries.len().min(10)]));
@@ -445,6 +448,19 @@ async fn refused_body(c: &RefusedCase) -> L2 {
         verdict = v("reconnect_too_soon", format!("a retry wait of {} ms was announced at {} ms and the next one already at {} ms ({} unrelated sockets were opened and closed meanwhile)", w[0].1, w[0].0, w[1].0, churned));
         break;
       }
+    }
+  }
+  // the peer becomes reachable: the connection has to come now, whatever the other sockets did
+  {
+    let addr = ep.trim_start_matches("tcp://").to_string();
+    match tokio::net::TcpListener::bind(&addr).await {
+      Ok(l) => {
+        let wait = Duration::from_millis(3 * c.ivl_ms as u64 + 2500);
+        if tokio::time::timeout(wait, l.accept()).await.is_err() {
+          verdict = v("reconnect_stopped", format!("a listener appeared on the refused port after {} ms of retries; no connection attempt arrived within {:?} (RECONNECT_IVL {}, {} unrelated sockets were opened and closed during the back-off)", c.window_ms, wait, c.ivl_ms, churned));
+        }
+      }
+      Err(_) => {}
     }
   }
   let _ = push.close().await;
